@@ -134,6 +134,25 @@ def rule_C04(env):
                         PV.op_loc(env, "::cleanup_for_stop"))
             if row is not None and row["name"] == "STOP":
                 res.add("R04.d", "cleanup_for_stop/stop", "collapse phase emits STOP", PV.op_loc(env, "::cleanup_for_stop"))
+    # R04.c: a post_process rewrite replaces the whole emission: every effect starts by truncating to the
+    # snapshot length, so a chain of rewrites by several mutators equals the last one (this is why one
+    # abstract mutator per emission suffices in the unsafe transitions)
+    table = mutsum.MutatorTable(prog)
+    mf = H.models_factory(prog, ctx, None)
+    for first in [None] + sorted(r["code"] for r in spec.table):
+        for nonempty in ((True,) if first is not None else (True, False)):
+            summ = mutsum.summarise_post_process(prog, ctx, table, first, nonempty, None, mf)
+            obligations += 1
+            res.count("R04.c")
+            for e in summ["effects"]:
+                eff = e["effect"]
+                kinds = [w[0] for w in eff]
+                if kinds[:1] != ["truncate_to_snapshot"] or any(k != "out" for k in kinds[1:]):
+                    res.add("R04.c", "post_process/%s/effect-shape" % e["self_ty"].split("::")[-1],
+                            "%s::post_process modifies the output other than by replacing the whole emission (truncate to the snapshot, then append): %r" % (e["self_ty"], kinds))
+                if not any(dict(e["flags"]).get(k) for k in dict(e["flags"])) and not any(v is True for _, v in e["flags"]):
+                    res.add("R04.c", "post_process/%s/ungated" % e["self_ty"].split("::")[-1],
+                            "%s::post_process rewrites output without its unsafe_mode being set" % e["self_ty"])
     hdr = header_findings(env, res)
     obligations += hdr
     nviol = len(res.findings)
